@@ -52,13 +52,13 @@ def _layout(tier):
     if _SIGS is None:
         _SIGS = _sigs()
     nsig = (len(_SIGS) + NSIG_CHUNK - 1) // NSIG_CHUNK
-    nrnd = 4000 if tier == "quick" else 400000
+    nrnd = 4000 if tier == "quick" else 1200000
     return n, n * n, n, nsig, nrnd
 
 
 def plan(tier):
     base_n = 41 * 41 + 41 + 390
-    return {"cases": base_n + (4000 if tier == "quick" else 400000), "shards": 16,
+    return {"cases": base_n + (4000 if tier == "quick" else 1200000), "shards": 16,
             "timeout": 600 if tier == "quick" else 3000, "min_nontrivial": 1500,
             "min": {"products_quotients": 15000, "refusals_demanded": 10000, "roundtrips": 100000}}
 
